@@ -428,6 +428,13 @@ func damage(f *pbfgen.File, j *Job) (data []byte, nbefore int, skip string) {
 			return idx
 		}}
 		return mutated(mu, &applied)
+	case "missing-stringtable":
+		// only a block that references at least one string index is detectably damaged
+		has := false
+		if pos >= 0 {
+			has = referencesStrings(f.Blocks[pos])
+		}
+		return mutated(&pbfgen.Mutator{DropStringTable: true}, &has)
 	case "plain-nodes":
 		has := false
 		if pos >= 0 {
@@ -438,6 +445,32 @@ func damage(f *pbfgen.File, j *Job) (data []byte, nbefore int, skip string) {
 		return mutated(&pbfgen.Mutator{PlainNodes: true}, &has)
 	}
 	return nil, 0, "unknown damage class"
+}
+
+func referencesStrings(b *pbfgen.Block) bool {
+	for _, g := range b.Groups {
+		if d := g.Dense; d != nil && len(d.Nodes) > 0 {
+			if d.HasInfo && d.CUser {
+				return true
+			}
+			for _, n := range d.Nodes {
+				if len(n.Tags) > 0 {
+					return true
+				}
+			}
+		}
+		for _, w := range g.Ways {
+			if len(w.Tags) > 0 || (w.Info != nil && w.Info.User != nil) {
+				return true
+			}
+		}
+		for _, r := range g.Relations {
+			if len(r.Tags) > 0 || len(r.Members) > 0 || (r.Info != nil && r.Info.User != nil) {
+				return true
+			}
+		}
+	}
+	return false
 }
 
 func hasColumn(b *pbfgen.Block, col string) bool {
@@ -675,7 +708,7 @@ var damageClasses = []damageSpec{
 	{"string-index", "dense.user"}, {"string-index", "dense.key"}, {"string-index", "dense.val"},
 	{"string-index", "way.key"}, {"string-index", "way.val"}, {"string-index", "way.user"},
 	{"string-index", "rel.key"}, {"string-index", "rel.val"}, {"string-index", "rel.user"}, {"string-index", "rel.role"},
-	{"plain-nodes", ""},
+	{"plain-nodes", ""}, {"missing-stringtable", ""},
 }
 
 var (
@@ -790,7 +823,7 @@ func TestCutsAndDamage(t *testing.T) {
 	thorough := harness.Tier() == "thorough"
 	harness.Run(t, harness.Spec[Case]{
 		Name: "cuts-and-damage", N: 10,
-		Rule: "per generated file (1..4 small blocks, half of them 'rich' so that every damage class applies): EVERY byte offset 0..len is cut (exhaustive per file), and every damage class (oversized/negative sizes, wrong raw_size, corrupt/truncated zlib, unknown blob encoding, unknown block type, second header, unsupported required feature, missing dense columns, short/long columns, string index beyond the table in 10 places, plain nodes) is applied at the header block and at the first and last data block (thorough: every block); decoder count cycles through {1,2,5,16}; each scan runs in a child process; oracle = exact object prefix of the intact blocks, Err()==nil iff cut on a block boundary, Err()!=nil for damage, no crash, no hang (25 s watchdog); an evaluation is one scan of one (file, cut offset) or (file, damage class, position); non-trivial = cut strictly inside a block, or any applicable damage; distinct by (file bytes, cut/damage)",
+		Rule: "per generated file (1..4 small blocks, half of them 'rich' so that every damage class applies): EVERY byte offset 0..len is cut (exhaustive per file), and every damage class (oversized/negative sizes, wrong raw_size, corrupt/truncated zlib, unknown blob encoding, unknown block type, second header, unsupported required feature, missing dense columns, short/long columns, string index beyond the table in 10 places, missing string table, plain nodes) is applied at the header block and at the first and last data block (thorough: every block); decoder count cycles through {1,2,5,16}; each scan runs in a child process; oracle = exact object prefix of the intact blocks, Err()==nil iff cut on a block boundary, Err()!=nil for damage, no crash, no hang (25 s watchdog); an evaluation is one scan of one (file, cut offset) or (file, damage class, position); non-trivial = cut strictly inside a block, or any applicable damage; distinct by (file bytes, cut/damage)",
 		Gen: func(t *rapid.T) Case {
 			c := genCase(t)
 			c.AllPositions = thorough
